@@ -20,6 +20,7 @@ R5  yyinput / yy_get_next_buffer contract: the offset saved before the refill is
     R4 also requires that getc is control dependent on the room test (no byte is taken from the stream without room).
 
 R6  yy_init_buffer stores yy_input_file, yy_fill_buffer and yy_is_interactive on every path (yyrestart on the current buffer).
+R8  the growth decision of yy_get_next_buffer is tight: the input call is reached only with a count > 0 (concrete evaluation).
 R7  the refill decision in yylex / yyinput reads the count register, not the copy saved in the buffer object.
 
 This module also holds the back-end identifier map and the buffer-pointer taint shared by c04.py and c08.py.
@@ -80,6 +81,8 @@ CELL_ROLE = {
     'yybufferstack': 'BUFSTACK',
     'yydidbufferswitchoneof': 'DIDSWITCH',
     'yyinputfile': 'INPUTFILE',
+    'yystateptr': 'STATEPTR',
+    'yystatebuf': 'STATEBUF',
     'yyfillbuffer': 'FILLBUF',
 }
 PTR_ROLES = ('CBUFP', 'TEXT', 'CHBUF', 'CPOS', 'FULLMATCH', 'BUFPOS')
@@ -634,6 +637,107 @@ def gnb_arms(sc, fn, call, eof):
     if sw is None: return None, {}
     return sw, {c: fn.bmap[l] for c, l in sw.cases}
 
+# ---------------------------------------------------------------- a small concrete interpreter
+
+def _wrap(val, bits, signed=True):
+    if val is None or bits is None: return val
+    val &= (1 << bits) - 1
+    if signed and val >= 1 << (bits - 1): val -= 1 << bits
+    return val
+
+def _bits(t):
+    return t.a if t is not None and t.k == 'int' else (64 if t is not None and t.k == 'ptr' else None)
+
+def step_value(fn, a, x, env, regs, prev):
+    """value of instruction x (None = unknown) given locals env and registers regs"""
+    def val(o):
+        if o[0] == 'int': return o[1]
+        if o[0] == 'null': return 0
+        if o[0] == 'reg': return regs.get(o[1])
+        return None
+    op = x.op
+    if op == 'load':
+        l = a.loc(x.ops[0])
+        return env.get(l[1]) if l[0] == 'local' else None
+    if op in ('sext', 'bitcast'): return val(x.ops[0])
+    if op == 'zext':
+        v_ = val(x.ops[0]); b = _bits(x.srcty)
+        return None if v_ is None else (v_ & ((1 << b) - 1) if b else v_)
+    if op == 'trunc': return _wrap(val(x.ops[0]), _bits(x.ty))
+    if op in ('add', 'sub', 'mul', 'and', 'or', 'xor'):
+        p_, q_ = val(x.ops[0]), val(x.ops[1])
+        if p_ is None or q_ is None: return None
+        r = {'add': p_ + q_, 'sub': p_ - q_, 'mul': p_ * q_, 'and': p_ & q_, 'or': p_ | q_, 'xor': p_ ^ q_}[op]
+        b = _bits(x.ty)
+        return (r & 1) if b == 1 else _wrap(r, b)
+    if op == 'icmp':
+        p_, q_ = val(x.ops[0]), val(x.ops[1])
+        if p_ is None or q_ is None: return None
+        b = _bits(x.ty) or 64
+        up, uq = p_ & ((1 << b) - 1), q_ & ((1 << b) - 1)
+        sp, sq = _wrap(p_, b), _wrap(q_, b)
+        return int({'eq': up == uq, 'ne': up != uq, 'ugt': up > uq, 'uge': up >= uq, 'ult': up < uq, 'ule': up <= uq,
+                    'sgt': sp > sq, 'sge': sp >= sq, 'slt': sp < sq, 'sle': sp <= sq}[x.pred])
+    if op == 'select':
+        c = val(x.ops[0])
+        return None if c is None else val(x.ops[1] if c else x.ops[2])
+    if op == 'phi':
+        for o, lab in zip(x.ops, x.cases):
+            if prev is not None and lab == prev.name: return val(o)
+        return None
+    return None
+
+def simulate(sc, fn, start, env, regs=None, on_ins=None, limit=3000):
+    """run fn concretely from the instruction after `start` with the locals in env (alloca name -> int); every other
+    memory location and every call result is unknown; a branch on an unknown value forks.  on_ins(x, env, regs) is called
+    for every instruction reached and may return 'stop' to end that path.  Returns the set of returned values (None =
+    unknown) of the paths that reach a `ret`.  Paths end at calls of no-return functions."""
+    a = sc.fa(fn); cfg = sc.prog.cfg(fn)
+    rets = set(); seen = set(); steps = 0
+    work = [(start.blk, start.idx + 1, dict(env), dict(regs or {}), None)]
+    while work:
+        blk, k, env_, regs_, prev = work.pop()
+        key = (blk.name, k, tuple(sorted(env_.items())), prev.name if prev is not None else None)
+        if key in seen: continue
+        seen.add(key)
+        n = cfg._live_len(blk)
+        stop = False
+        for j in range(k, n):
+            x = blk.ins[j]
+            steps += 1
+            if steps > limit: return rets | {('limit',)}
+            if on_ins is not None and on_ins(x, env_, regs_) == 'stop': stop = True; break
+            if x.op == 'store':
+                l = a.loc(x.ops[1])
+                if l[0] == 'local':
+                    o = x.ops[0]
+                    env_[l[1]] = o[1] if o[0] == 'int' else (regs_.get(o[1]) if o[0] == 'reg' else None)
+                continue
+            if x.op == 'ret':
+                o = x.ops[0] if x.ops else None
+                rets.add(None if o is None else (o[1] if o[0] == 'int' else regs_.get(o[1]) if o[0] == 'reg' else None))
+                stop = True; break
+            if x.op == 'br':
+                if not x.ops: work.append((fn.bmap[x.targets[0]], 0, env_, regs_, blk))
+                else:
+                    c = regs_.get(x.ops[0][1]) if x.ops[0][0] == 'reg' else (x.ops[0][1] if x.ops[0][0] == 'int' else None)
+                    tg = [x.targets[0]] if c else [x.targets[1]]
+                    if c is None: tg = list(x.targets)
+                    for t in tg:
+                        if fn.bmap[t] in cfg.succ[blk]: work.append((fn.bmap[t], 0, dict(env_), dict(regs_), blk))
+                stop = True; break
+            if x.op == 'switch':
+                c = regs_.get(x.ops[0][1]) if x.ops[0][0] == 'reg' else None
+                if c is None: tg = list(x.targets)
+                else: tg = [next((l for cv, l in x.cases if cv == c), x.callee)]
+                for t in tg:
+                    if fn.bmap[t] in cfg.succ[blk]: work.append((fn.bmap[t], 0, dict(env_), dict(regs_), blk))
+                stop = True; break
+            if x.res is not None:
+                regs_[x.res] = step_value(fn, a, x, env_, regs_, prev)
+        if stop: continue
+    return rets
+
 # ---------------------------------------------------------------- R1
 
 def r1(ctx, sc, lex, gnb, consts, eof):
@@ -1112,6 +1216,54 @@ def r7(ctx, sc):
                         norm(fn.name), br.line, 'the copy of yy_n_chars saved in the buffer object' if cnt else 'something else than yy_n_chars', v.name), variant=v.describe())
     return n
 
+# ---------------------------------------------------------------- R8
+
+def read_count_local(sc, gnb):
+    """(input call, local that holds the number of bytes requested) in yy_get_next_buffer"""
+    a = sc.fa(gnb)
+    for c in sc.calls(gnb, 'READ'):
+        for arg in c.ops:
+            d = gnb.def_of(flow.int_origin(gnb, arg))
+            if d is not None and d.op == 'load' and d.ty is not None and d.ty.k == 'int':
+                l = a.loc(d.ops[0])
+                if l[0] == 'local': return c, l[1]
+    return None, None
+
+def r8(ctx, sc, gnb):
+    """the growth decision of yy_get_next_buffer is tight: whenever control reaches the input call the number of bytes
+    requested is > 0.  A request for 0 bytes returns 0, which the scanner takes for end of file: the token is cut and the
+    rest of the input dropped.  Decided by running the function concretely from every assignment of the count local with
+    the values -1, 0 (must not reach the input call unchanged) and 1, 2 (must reach it)."""
+    rep = ctx.rep; v = sc.v
+    call, N = read_count_local(sc, gnb)
+    if call is None:
+        vac(rep, v, 'C03.R8: yy_get_next_buffer does not call yyread with a count held in a local (user YY_INPUT / unusual back end)')
+        return 0
+    a = sc.fa(gnb)
+    starts = [st for st in a.local_stores(N) if st.ops[0][0] != 'int']
+    if not starts: rep.broken('%s: the count passed to yyread in yy_get_next_buffer is never computed' % v.name)
+    key = 'C03.R8:%s:yy_get_next_buffer:reads-zero-bytes-when-full' % skel(v)
+    bad = None; reached = set()
+    for st in starts:
+        for val in (-1, 0, 1, 2):
+            hit = []
+            def on(x, env, regs, hit=hit):
+                if x is call:
+                    hit.append(env.get(N)); return 'stop'
+            r = simulate(sc, gnb, st, {N: val}, on_ins=on)
+            if ('limit',) in r: rep.broken('%s: concrete evaluation of yy_get_next_buffer did not terminate within the step limit' % v.name)
+            for h in hit:
+                if h is not None and h <= 0 and bad is None: bad = (st, val, h)
+                if h is not None and h > 0: reached.add(val)
+    if bad:
+        rep.fail('C03.R8', key, where(call), 'when the room left in the buffer is %d (count computed at line %s) yy_get_next_buffer neither grows the buffer nor refuses: it asks yyread for %d bytes, the 0 it gets back is taken for end of file and the rest of the input is dropped [variant %s]' % (
+            bad[1], bad[0].line, bad[2], v.name), variant=v.describe(), replay_input='a token that reaches yy_buf_size - 1 bytes read from a FILE or pipe')
+    elif not ({1, 2} <= reached):
+        rep.fail('C03.R8', key.replace('reads-zero-bytes-when-full', 'never-reads-when-there-is-room'), where(call), 'yy_get_next_buffer does not reach the input call when 1 or 2 bytes of room are left [variant %s]' % v.name, variant=v.describe())
+    else:
+        rep.ok('C03.R8', '%s yy_get_next_buffer: yyread@%s is reached with the count %s only for counts > 0 (-1 and 0 grow or refuse)' % (v.name, call.line, N))
+    return 1
+
 # ---------------------------------------------------------------- driver
 
 def anchors(ctx, sc):
@@ -1156,7 +1308,7 @@ def run(ctx):
     rep = ctx.rep
     vs = [v for v in ctx.variants() if usable(v)]
     rep.require(len(vs) >= 60, 'only %d scanner variants compiled to IR' % len(vs))
-    tot = {'R1': 0, 'R2': 0, 'R3': 0, 'R4': 0, 'R5': 0, 'R6': 0, 'R7': 0}
+    tot = {'R1': 0, 'R2': 0, 'R3': 0, 'R4': 0, 'R5': 0, 'R6': 0, 'R7': 0, 'R8': 0}
     backends = set()
     for v in vs:
         sc = Scanner(v)
@@ -1168,6 +1320,7 @@ def run(ctx):
         tot['R5'] += r5(ctx, sc, consts, eof)
         tot['R6'] += r6(ctx, sc)
         tot['R7'] += r7(ctx, sc)
+        tot['R8'] += r8(ctx, sc, gnb)
         k = r4(ctx, sc)
         if k == 0: vac(rep, v, 'C03.R4: no stdio getc loop (%s)' % ('C++ reads through std::istream in LexerInput' if v.backend == 'cxx' else 'the scanner uses read(2): %option read or -Cf/-CF'))
         tot['R4'] += k
@@ -1185,6 +1338,8 @@ def run(ctx):
     count_guard(rep, tot['R6'] >= 3 * len(vs), 'C03.R6 matched %d instances, 3 per variant (yy_init_buffer) expected' % tot['R6'])
     count_guard(rep, tot['R7'] >= 2 * len(vs) - 12, 'C03.R7 matched %d instances, one per refill call in yylex and yyinput expected' % tot['R7'])
     rep.floor('C03.R6', 1, 'yy_init_buffer'); rep.floor('C03.R7', 1, 'refill decisions')
+    count_guard(rep, tot['R8'] >= len(vs) - 6, 'C03.R8 matched %d instances, one per variant expected' % tot['R8'])
+    rep.floor('C03.R8', 1, 'growth decision of yy_get_next_buffer')
     rep.floor('C03.R1', 1, 'two refill arms (continue-scan, last-match) in yylex of every variant')
     rep.floor('C03.R2', 1, 'yytext_ptr re-derivation, reallocs x (locals + 2 cells), refill arms of yylex and yyinput x (yy_c_buf_p + locals)')
     rep.floor('C03.R3', 1, 'one growth arm in yy_get_next_buffer of every non-REJECT variant')
